@@ -246,6 +246,12 @@ func z3Body(sc z3Scenario) func() {
 			}
 			srv.NoFaultsLeft = clean
 			ctx, cancel := gocontext.WithCancel(gocontext.Background())
+			if sc.Second && !clean {
+				// (this client gives up after 5 virtual minutes: whichever of the two pulls joins the other's
+				// download waits for ever if that download's preparation failed - a liveness defect noted in
+				// DESIGN section 10, outside the C03 text)
+				ctx, cancel = mcrt.WithTimeout(gocontext.Background(), 5*gotime.Minute)
+			}
 			if sc.Cancel && !clean {
 				mcrt.GoNamed(fmt.Sprintf("cancel%d", attempt), func() {
 					mcrt.Yield("client goes away")
@@ -421,6 +427,17 @@ func ztReplayBody(rp ztReplay, body func(), scv any, prop string) {
 // ztExplore runs the common coordinator/worker protocol for mcrt scenarios.
 func ztExplore(r *evid.Run, prop string, names []string, mk func(name string) (func(), any, string), bounds mcrt.Bounds, capOf func(name string) int, budget gotime.Duration, replayOf func(name, choices string) ztReplay) {
 	deadline := gotime.Now().Add(budget)
+	if only := gos.Getenv("VERIF_SCENARIO"); only != "" {
+		// debugging aid: explore one scenario only (the run is then reported as not exhaustive)
+		var l []string
+		for _, n := range names {
+			if n == only {
+				l = append(l, n)
+			}
+		}
+		names = l
+		r.NotExhaustive("restricted to scenario " + only + " by VERIF_SCENARIO")
+	}
 	onExec := func(sub *evid.Run, name string, x *mcrt.Explorer) func([]int, *mcrt.Result) {
 		return func(choices []int, res *mcrt.Result) {
 			if res.Pruned {
